@@ -470,6 +470,7 @@ def write_evidence(sess, prop, tier, failed, known, undecided=None, wall=0.0, ka
             functions_not_verified_on_this_tree=[dict(function=k, reason=v.unverified) for k, v in (sess.fns.items() if sess and hasattr(sess, "fns") else [])
                                                  if getattr(v, "unverified", None)],
             mutation_self_test=selftest,
+            assumption_checks=[getattr(sess, "stub_check", None)] if getattr(sess, "stub_check", None) else [],
             kani=kani,
             extraction_log=sess.sp.log[:80] if sess and hasattr(sess, "sp") else [],
         ),
@@ -697,6 +698,20 @@ def main():
             write_evidence(sess, p, tier, [], [], undecided=str(e), wall=time.time() - t0)
         return 2
     claimed = claimed_props()
+    stub_check = None
+    if tier == "thorough":
+        # assumption T1 is exercised (not proved): random operation sequences on the real buffer_redux::BufReader against the stub's model
+        seed = str(int(os.environ.get("VERIF_SEED", "0") or 0) + 12345)
+        r = sh([os.path.join(VERIF, "replay", "run.sh"), "--repo", a.repo, "stubcheck", seed, "3000", "60"])
+        line = next((l for l in r.stdout.split("\n") if l.startswith("stubcheck ok")), None)
+        stub_check = dict(assumption="T1 buffer_redux::BufReader stub; T4 split / splitn / chunks stubs", kind="differential test, not a proof", seed=int(seed),
+                          result=line or ("FAILED: " + (r.stdout + r.stderr)[-600:]))
+        if line is None:
+            for p in props:
+                print("UNDECIDED property=%s reason=assumption T1 (BufReader stub) contradicted by the real buffer_redux: %s" % (p, stub_check["result"][-300:]))
+                write_evidence(sess, p, tier, [], [], undecided="T1 stub check failed: " + stub_check["result"], wall=time.time() - t0)
+            return 2
+    sess.stub_check = stub_check
     for p in props:
         if a.prop == "all" and p not in claimed:
             continue
